@@ -194,6 +194,21 @@ claim("C17",
       "LinearRegression is the engine the code delegates to (its result is checked, not trusted); free tie order at the n_min cut.",
       "TLA+ design models checked by TLC + TLC trace validation of logged real calls", "5/C17")
 
+claim("C07",
+      "TLC checks Smc.tla exhaustively (set_objective with threshold or quantile lists, round ends, extract_result, a second sample() call "
+      "on the same sampler in all four orders): one population per list entry, the threshold in force of a quantile round is the quantile of "
+      "the PREVIOUS population, proposals and weights come from the latest population, n_sim adds over all rounds, and no IndexError - with "
+      "the stale-quantiles history of finding F22 (repaired) as a refuted negative control; Batches.tla (C04) covers the scheduling of the "
+      "rounds, Rejection.tla (C01) each round's sample, WQuantile.tla (C13) the quantile.  Real SMC.sample runs over bounded-uniform, "
+      "unbounded-normal and hierarchical priors with dyadic discrepancies, threshold lists and dyadic quantile lists, half of them continued, "
+      "are logged population by population; TLC validates each against Smc_Trace.tla: size, discrepancies within the user threshold or "
+      "within a threshold that IS a weighted alpha-quantile of the previous population (WQuantileOps with rounding slack), positive prior "
+      "density, first weights 1, log w = log prior - log mixture(previous population, its weights, its covariance) and cov = 2 x "
+      "reliability-weights variance as oracle-field relations, n_sim = batch_size x consumed batches per round and summed.",
+      "Clauses d and e are relation checks against scipy / numpy oracle fields (technique T4 of DESIGN: the weakest form used); the density "
+      "values themselves are trusted to scipy; weights logged to 1e-4.",
+      "TLA+ round model checked by TLC + TLC trace validation of logged populations with oracle fields", "5/C07")
+
 ALL = ["C%02d" % i for i in range(1, 21)]
 
 
